@@ -52,6 +52,30 @@ fn defining_sum<const P: u128>(t: Tt, n: usize, map: &WmcParams<FiniteField<P>>)
 fn hash_part<const P: u128>(case: &HashCase, cached_slot: usize, st: &mut Stats) -> CaseResult {
     let n = case.src.n();
     let t = case.src.tt();
+    // maps for many variables keep the documented shape too (low + high = 1 mod P on every variable; a prefix of a
+    // longer map is the shorter map): checked on a size drawn from the case, up to 4000 variables
+    {
+        let big_n = 64 + (case.src.tt().0[0] % 3937) as usize;
+        let big = create_semantic_hash_map::<P>(big_n);
+        let small = create_semantic_hash_map::<P>(n.max(1));
+        for v in 0..big_n {
+            let (l, h) = big.var_weight(VarLabel::new_usize(v));
+            ensure!(
+                (l.value() + h.value()) % P == 1 % P,
+                "C11/hash-map-not-normalised",
+                "create_semantic_hash_map::<{}>({}): variable {} has low {} + high {} != 1 (mod P)",
+                P,
+                big_n,
+                v,
+                l.value(),
+                h.value()
+            );
+            if v < n.max(1) {
+                let (sl, sh) = small.var_weight(VarLabel::new_usize(v));
+                ensure!(sl.value() == l.value() && sh.value() == h.value(), "C11/hash-map-depends-on-size", "variable {} has other weights in the map for {} variables than in the map for {}", v, big_n, n.max(1));
+            }
+        }
+    }
     let map = create_semantic_hash_map::<P>(n);
     // the documented shape of the map: low + high = 1 (mod P)
     for v in 0..n {
